@@ -32,16 +32,20 @@ func dnfPairs(f *eng.Fn, e ast.Expr) (map[string]bool, bool) {
 		if !isB || be.Op != token.EQL {
 			return "", "", false
 		}
-		ix, isI := ast.Unparen(be.X).(*ast.IndexExpr)
+		lx, ly := be.X, be.Y
+		if _, isI := ast.Unparen(lx).(*ast.IndexExpr); !isI {
+			lx, ly = ly, lx // constant first: 'c' == s[i]
+		}
+		ix, isI := ast.Unparen(lx).(*ast.IndexExpr)
 		if !isI {
 			return "", "", false
 		}
 		i, okI := f.ConstInt(ix.Index)
-		v := f.ConstVal(be.Y)
+		v := f.ConstVal(ly)
 		if !okI || v == nil {
 			return "", "", false
 		}
-		c, _ := f.ConstInt(be.Y)
+		c, _ := f.ConstInt(ly)
 		return itoa(int(i)), string(rune(c)), true
 	}
 	firsts = func(e ast.Expr) ([]string, []string) {
